@@ -84,7 +84,11 @@ main(int argc, char **argv)
         printf("Definition c_sizeof_char_narrow : Z := %ld%%Z.\n", (long)sizeof(rdsparser_string_char_t));
         return 0;
     }
+    const int all = strcmp(mode, "main") == 0;
+#define SECTION(name) if (all || strcmp(mode, name) == 0)
 
+    SECTION("consts")
+    {
     CONST(RDSPARSER_AF_BUFFER_SIZE);
     CONST(RDSPARSER_PS_LENGTH);
     CONST(RDSPARSER_RT_LENGTH);
@@ -120,9 +124,15 @@ main(int argc, char **argv)
         }
     }
     printf("].\n\n");
+    }
 
+    SECTION("conv")
+    {
     dump_conv("conv_unicode");
+    }
 
+    SECTION("ecc")
+    {
     /* ECC lookup: complete graph over 16 PI country nibbles x 256 ECC values */
     printf("Definition ecc_lut : list (list Z) := [\n");
     for (int nib = 0; nib < 16; nib++)
@@ -159,7 +169,10 @@ main(int argc, char **argv)
         printf("Definition ecc_graph_bad_pi : Z := (%ld)%%Z.\nDefinition ecc_graph_bad_ecc : Z := (%ld)%%Z.\n\n", bad_pi, bad_ecc);
     }
 
+    }
+
     /* PTY lookups: all 256 argument values (index i stands for (int8_t)i), RDS and RBDS */
+    SECTION("pty")
     {
         const char *(*fn[3])(rdsparser_pty_t, bool) =
             { rdsparser_pty_lookup_name, rdsparser_pty_lookup_short, rdsparser_pty_lookup_long };
@@ -182,6 +195,8 @@ main(int argc, char **argv)
     }
 
     /* country lookups: all 256 argument values */
+    SECTION("country")
+    {
     printf("Definition country_name : list (list Z) := [\n");
     for (int i = 0; i < 256; i++)
     {
@@ -200,5 +215,6 @@ main(int argc, char **argv)
         printf("%s\n", i < 255 ? ";" : "");
     }
     printf("]%%Z.\n");
+    }
     return 0;
 }
